@@ -295,6 +295,10 @@ def memo_actions(keys, with_fft):
     qs += [M("Diatonic", ["C", T(3, 7), 2], "ascending"), M("Diatonic", ["C", T(3, 7)], "ascending"), M("Ionian", ["C"], "ascending"),
            M("Ionian", ["C", 2], "descending"), M("Dorian", ["D", 2], "ascending"), M("Dorian", ["D"], "ascending"),
            M("Diatonic", ["C", T(2, 6)], "ascending")]
+    # pairs of questions whose arguments concatenate to the same text ('A' + '#3' and 'A#' + '3')
+    qs += [Q("intervals", "from_shorthand", "A", "#3", False), Q("intervals", "from_shorthand", "A#", "3", False),
+           Q("intervals", "from_shorthand", "C", "b3"), Q("intervals", "from_shorthand", "Cb", "3"),
+           Q("intervals", "determine", "Cb", "B"), Q("intervals", "determine", "C", "bB")]
     qs += [Q("intervals", "third", "E", k0), Q("intervals", "interval", k0, "D", 4), Q("intervals", "unison", keys[1].upper()[0]),
            Q("intervals", "major_third", "E"), Q("intervals", "minor_seventh", "Bb"), Q("intervals", "invert", ["C", "E", "G"]),
            Q("intervals", "determine", "C", "G#"), Q("intervals", "from_shorthand", "A", "b3"), Q("intervals", "measure", "C", "E"),
@@ -563,6 +567,15 @@ def scribble(x, stack=None):
         elif hasattr(x, "__dict__") and not isinstance(x, type) and not callable(x):
             for v in list(vars(x).values()):
                 n += scribble(v, stack)
+            if type(x).__module__.startswith("mingus"):
+                # a returned library object (a Note inside a result list, say) is the caller's too: change its numbers
+                for k, v in list(vars(x).items()):
+                    if isinstance(v, (int, float)) and not isinstance(v, bool) and not k.startswith("_"):
+                        try:
+                            setattr(x, k, v + 7)
+                            n += 1
+                        except Exception:                                   # noqa
+                            pass
     finally:
         stack.pop()
     return n
@@ -1336,7 +1349,105 @@ def gen_copies(shard):
         yield [owner_name, side, script]
 
 
+# ---------------------------------------------------------------------------------------
+# fresh_graph: what a building call returns is made of objects of its own
+# ---------------------------------------------------------------------------------------
+def _music_objects(x, path, out, stack):
+    """id -> [paths] of every Note / NoteContainer / Bar / Track reachable inside x through lists, tuples, dicts and the
+    public attributes of those four classes."""
+    from mingus.containers.note import Note as _N
+    from mingus.containers.note_container import NoteContainer as _NC
+    from mingus.containers.bar import Bar as _B
+    from mingus.containers.track import Track as _T
+    if id(x) in stack:
+        return
+    if isinstance(x, (_N, _NC, _B, _T)):
+        out.setdefault(id(x), (x, []))[1].append(path)
+        if len(out[id(x)][1]) > 1:
+            return
+        stack.append(id(x))
+        for k, v in sorted(vars(x).items()):
+            if not k.startswith("_") and k not in ("instrument", "key", "tuning"):
+                _music_objects(v, path + "." + k, out, stack)
+        stack.pop()
+    elif isinstance(x, (list, tuple)):
+        stack.append(id(x))
+        for i, v in enumerate(x):
+            _music_objects(v, "%s[%d]" % (path, i), out, stack)
+        stack.pop()
+    elif isinstance(x, dict):
+        stack.append(id(x))
+        for k, v in x.items():
+            _music_objects(v, "%s[%r]" % (path, k), out, stack)
+        stack.pop()
+
+
+def _builders():
+    from mc.checks import c15_api as A
+    from mingus.containers.track import Track as _T
+    from mingus.containers.bar import Bar as _B
+    from mingus.containers.note_container import NoteContainer as _NC
+    import mingus.extra.fft as _fft
+    import mingus.midi.midi_file_in as _mfi
+    import mingus.midi.midi_file_out as _mfo
+
+    def tuned():
+        t = _T()
+        t.set_tuning(A.tuning6())
+        return t
+
+    def midi_roundtrip():
+        ensure_tmp()
+        path = os.path.join(api.TMP["dir"], "fresh_graph.mid")
+        _mfo.write_Track(path, _T().from_chords(["C", "F", "C"], 2), 120)
+        return _mfi.MIDI_to_Composition(path)[0].tracks
+
+    def bar_of_lists():
+        b = _B("C", (4, 4))
+        for _ in range(4):
+            b.place_notes(["C", "E"], 4)
+        return b
+
+    return {
+        "Track().from_chords(['C', 'F', 'C', 'F'], 1)": lambda: _T().from_chords(["C", "F", "C", "F"], 1),
+        "Track().from_chords(['C', ['Am', 'C'], 'Am'], 1)": lambda: _T().from_chords(["C", ["Am", "C"], "Am"], 1),
+        "tuned Track.from_chords(['E', 'A', 'E', 'A'], 1)": lambda: tuned().from_chords(["E", "A", "E", "A"], 1),
+        "tuned Track.from_chords(['Em', ['Em', 'Em']], 2)": lambda: tuned().from_chords(["Em", ["Em", "Em"]], 2),
+        "NoteContainer().from_chord('Cmaj7')": lambda: _NC().from_chord("Cmaj7"),
+        "NoteContainer().from_progression('V7', 'C')": lambda: _NC().from_progression("V7", "C"),
+        "StringTuning.find_chord_fingering(E, return_best_as_NoteContainer=True)":
+            lambda: A.tuning6().find_chord_fingering(_NC().from_chord("E"), return_best_as_NoteContainer=True),
+        "Bar.place_notes(['C', 'E'], 4) x 4": bar_of_lists,
+        "fft.find_notes(table)": lambda: _fft.find_notes([(440.0, 10.0), (660.0, 5.0), (880.0, 1.0)]),
+        "MIDI_to_Composition(file of a from_chords track)": midi_roundtrip,
+    }
+
+
+def run_fresh_graph(case):
+    """case = builder name: build twice; inside one result no Note / NoteContainer / Bar stands at two places, and the
+    two results have no such object in common."""
+    S = engine.S
+    name = case
+    build = _builders()[name]
+    a, b = build(), build()
+    S.trans(2)
+    oa, ob = {}, {}
+    _music_objects(a, "result", oa, [])
+    _music_objects(b, "result", ob, [])
+    for i, (obj, paths) in oa.items():
+        if len(paths) > 1:
+            S.problem("%s: one %s object at several places of the result" % (name, type(obj).__name__), "objects of their own", sorted(paths)[:4])
+            break
+    common = [oa[i] for i in oa if i in ob]
+    if common:
+        S.problem("%s called twice: %s objects common to both results" % (name, type(common[0][0]).__name__), "none",
+                  [p[0] for _, p in common][:4])
+    S.count("fresh_graphs_checked")
+    S.outcome((name, len(oa)))
+
+
 CLAUSES = {
+    "fresh_graph": run_fresh_graph,
     "memo": _memo_runner,
     "fft": _fft_runner,
     "arguments": run_arguments,
@@ -1419,6 +1530,10 @@ def explore(ctx):
         ctx.product("interference", [(c, i) for c in jc for i in range(len(class_ops(c)))], gen_interference)
         if not ctx.only:
             ctx.guard("interference pairs", ctx.counter("interference_pairs_checked"), 2000)
+    if ctx.want("fresh_graph"):
+        names = sorted(_builders())
+        ctx.bound("fresh_graph", names)
+        ctx.serial("fresh_graph", names)
     if ctx.want("copies"):
         maxlen = ctx.pick(2, 2)
         routes = sorted(COPY_SOURCES) + ["NoteContainer:add_notes", "NoteContainer:plus"]
